@@ -30,8 +30,16 @@ func Corpus() []*Schema {
 			{"other", 5, "msg:Peer", "opt"}, {"id", 6, "int32", "opt"}, {"big1", 15, "int32", "opt"}, {"big2", 16, "int32", "opt"}, {"big3", 2047, "string", "opt"}, {"big4", 2048, "string", "opt"},
 			{"big5", 67108864, "uint64", "opt"}, {"big6", 536870911, "sint32", "opt"}}},
 		{Name: "Peer", Fields: []F{{"back", 1, "msg:Nest", "opt"}, {"note", 2, "string", "opt"}}},
+		// field numbers on both sides of every size of the field key (1..5 bytes) and inside each range
+		{Name: "KeySizes", Fields: []F{{"k15", 15, "sint64", "opt"}, {"k16", 16, "bool", "opt"}, {"k2047", 2047, "fixed32", "packed"}, {"k2048", 2048, "bytes", "opt"},
+			{"k3000", 3000, "int64", "rep"}, {"k4095", 4095, "string", "opt"}, {"k4096", 4096, "double", "opt"}, {"k262143", 262143, "msg:Peer", "opt"}, {"k262144", 262144, "string", "rep"},
+			{"k1m", 1000000, "sint32", "packed"}, {"k33554431", 33554431, "uint32", "opt"}, {"k33554432", 33554432, "msg:Peer", "rep"}, {"k100m", 100000000, "fixed64", "opt"},
+			{"k268435455", 268435455, "string", "opt"}, {"k268435456", 268435456, "int32", "opt"}, {"k400m", 400000000, "bytes", "opt"}, {"k536870910", 536870910, "float", "opt"},
+			{"kmap", 300000, "int32", "map:string"}}},
 		{Name: "OneOfs", Fields: append(allKinds("w", 1, "oneof:which", ScalarKinds), F{"w_enum", 16, "enum:Color", "oneof:which"}, F{"w_msg", 17, "msg:Scalars", "oneof:which"},
 			F{"x_a", 20, "int32", "oneof:second"}, F{"x_b", 21, "string", "oneof:second"}, F{"plain", 30, "string", "opt"})},
+		// a oneof none of whose members needs its value to compute its size
+		{Name: "FixedOneof", Fields: []F{{"b", 1, "bool", "oneof:flag"}, {"f", 2, "fixed32", "oneof:flag"}, {"d", 3, "double", "oneof:flag"}, {"s", 4, "sfixed64", "oneof:flag"}, {"fl", 5, "float", "oneof:flag"}}},
 		{Name: "Outer", Fields: []F{{"in", 1, "msg:Outer.Inner", "opt"}, {"ins", 2, "msg:Outer.Inner", "rep"}},
 			Nested: []M{{Name: "Inner", Fields: []F{{"v", 1, "sint64", "opt"}, {"deep", 2, "msg:Outer.Inner.Deepest", "opt"}},
 				Nested: []M{{Name: "Deepest", Fields: []F{{"b", 1, "bytes", "opt"}}}}}}},
@@ -85,7 +93,11 @@ func Corpus() []*Schema {
 	wkt := &Schema{ID: "wkt", Syntax: "proto3", Imports: []string{"google/protobuf/timestamp.proto", "google/protobuf/duration.proto", "google/protobuf/wrappers.proto"}}
 	wkt.Messages = []M{{Name: "Event", Fields: []F{{"name", 1, "string", "opt"}, {"at", 2, "wkt:google.protobuf.Timestamp", "opt"}, {"took", 3, "wkt:google.protobuf.Duration", "opt"},
 		{"history", 4, "wkt:google.protobuf.Timestamp", "rep"}, {"label", 5, "wkt:google.protobuf.StringValue", "opt"}, {"stamps", 6, "wkt:google.protobuf.Timestamp", "map:string"},
-		{"t", 7, "wkt:google.protobuf.Timestamp", "oneof:when"}, {"d", 8, "wkt:google.protobuf.Duration", "oneof:when"}}}}
+		{"t", 7, "wkt:google.protobuf.Timestamp", "oneof:when"}, {"d", 8, "wkt:google.protobuf.Duration", "oneof:when"}}},
+		// messages whose ONLY reference to another package sits in a map value / a oneof member / a list
+		{Name: "OnlyMap", Fields: []F{{"stamps", 1, "wkt:google.protobuf.Duration", "map:int32"}}},
+		{Name: "OnlyOneof", Fields: []F{{"n", 1, "int32", "oneof:pick"}, {"at", 2, "wkt:google.protobuf.StringValue", "oneof:pick"}}},
+		{Name: "OnlyList", Fields: []F{{"ats", 1, "wkt:google.protobuf.Timestamp", "rep"}}}}
 	cs = append(cs, wkt)
 	// special names and names differing in case
 	// a field called "Size" collides with the generated Size() method unless the runtime renames it:
